@@ -198,6 +198,11 @@ def _c07_cases(tier, seed):
     n = 40 if tier == "quick" else 500
     kinds = ["mink", "fourier", "msm", "lik", "gsl"]
     yield {"loss": "gsl", "rs": 1, "fixed": {"N": 40, "nbv": None, "nwl": 3}}   # default symbol count >= 10
+    # cut-offs that fall exactly half-way between two frequencies (f * n_freq = k + 0.5, k even and odd): the documented
+    # rounding is numpy's (half to even)
+    for N_ in (8, 9, 12, 16, 17, 25):
+        for kindf in ("ideal", "gauss"):
+            yield {"loss": "fourier", "rs": rnd.randrange(10 ** 9), "fixed": {"N": N_}, "fourier_opt": (0.5, kindf)}
     # every weighting x standardisation combination of the method of moments, systematically (two data sets each)
     for cov in ("identity", "matrix", "inverse_variance"):
         for std in (False, True):
@@ -256,6 +261,8 @@ def _c07_eval(reg, case, cache, opt_seed):
         elif case["loss"] == "fourier":
             f = rnd.choice([0.3, 0.5, 0.8, 1.0])
             kindf = rnd.choice(["ideal", "gauss"])
+            if "fourier_opt" in case:
+                f, kindf = case["fourier_opt"]
             if kindf == "gauss" and np.round(f * (N // 2 + 1)) < 1:
                 return None
             got = obj("L", lambda: FourierLoss(frequency_filter=ideal_low_pass_filter if kindf == "ideal" else
